@@ -56,7 +56,7 @@ func (p *prop) Run(line string) core.Outcome {
 	}
 	f := strings.Split(line, " ")
 	switch f[0] {
-	case "adapt", "madapt", "perm", "eqv", "leak", "site", "hist", "argidx", "bind":
+	case "adapt", "madapt", "perm", "eqv", "leak", "site", "hist", "argidx", "bind", "rename":
 		// cases that run the adapter can die of a fatal (unrecoverable) Go error
 		switch noteCase(line) {
 		case "crash":
@@ -92,6 +92,10 @@ func (p *prop) Run(line string) core.Outcome {
 			if t, err := core.UnHex(f[1]); err == nil && core.Hex(t) == f[1] {
 				return runAdapt(line, t, f[0] == "madapt")
 			}
+		}
+	case "rename":
+		if len(f) == 3 {
+			return runRename(line, f[1], f[2])
 		}
 	case "bind":
 		if len(f) == 2 {
